@@ -79,6 +79,29 @@ def _tail(stmts, k):
             ast.copy_location(new, s)
             out.append(new)
             return out, True
+        if isinstance(s, ast.Try) and _contains_return(s):
+            # `try: ... return e  except H: ...` keeps its meaning when `return e` becomes the continuation k(e) *inside* the
+            # try, provided k(e) itself cannot raise anything the handlers would then (wrongly) catch: k is a return, an
+            # assignment to plain names or an expression statement (flagged try_safe by the caller), never a `raise`.
+            if not getattr(k, 'try_safe', False):
+                raise NotInlinable('return inside try, and the continuation may raise')
+            if s.orelse or any(_contains_return(x) for x in s.finalbody):
+                raise NotInlinable('return inside try with else / finally')
+            rest = stmts[i + 1:]
+            regions = [list(s.body)] + [list(h.body) for h in s.handlers]
+            if rest and not all(_always_exits(rg) for rg in regions):
+                raise NotInlinable('a region of the try falls through to the statements after it')
+            body, _ = _tail(regions[0], k)
+            handlers = []
+            for h, rg in zip(s.handlers, regions[1:]):
+                hb, _ = _tail(rg, k)
+                nh = ast.ExceptHandler(type=h.type, name=h.name, body=hb or [ast.Pass()])
+                ast.copy_location(nh, h)
+                handlers.append(nh)
+            new = ast.Try(body=body or [ast.Pass()], handlers=handlers, orelse=[], finalbody=list(s.finalbody))
+            ast.copy_location(new, s)
+            out.append(new)
+            return out, True
         if isinstance(s, (ast.For, ast.While, ast.Try, ast.With, ast.AsyncFor, ast.AsyncWith)) and _contains_return(s):
             raise NotInlinable('return inside loop/try/with')
         if isinstance(s, (ast.AsyncFunctionDef, ast.ClassDef)):
@@ -102,6 +125,12 @@ class _Renamer(ast.NodeTransformer):
         return node
 
     def visit_arg(self, node):
+        return node
+
+    def visit_ExceptHandler(self, node):
+        if node.name and node.name in self.mapping and isinstance(self.mapping[node.name], ast.Name):
+            node.name = self.mapping[node.name].id
+        self.generic_visit(node)
         return node
 
     def visit_Lambda(self, node):
@@ -276,6 +305,265 @@ class Inliner(object):
         return None
 
 
+# ----------------------------------------------------------------------------- literal-table loops
+MAX_UNROLL = 12
+
+
+def _single_assign_value(stmts, name):
+    """Value of the only binding of `name` among the statements (own scope of a function / class / module), else None."""
+    vals = []
+    for n in stmts:
+        for x in ast.walk(n) if not isinstance(n, (ast.FunctionDef, ast.AsyncFunctionDef, ast.ClassDef)) else [n]:
+            if isinstance(x, ast.Assign):
+                for t in x.targets:
+                    for tn in ast.walk(t):
+                        if isinstance(tn, ast.Name) and tn.id == name:
+                            vals.append(x.value if len(x.targets) == 1 and isinstance(t, ast.Name) else None)
+            elif isinstance(x, (ast.AugAssign, ast.AnnAssign)) and isinstance(x.target, ast.Name) and x.target.id == name:
+                vals.append(None)
+            elif isinstance(x, (ast.For, ast.AsyncFor)):
+                if any(isinstance(tn, ast.Name) and tn.id == name for tn in ast.walk(x.target)):
+                    vals.append(None)
+            elif isinstance(x, (ast.FunctionDef, ast.AsyncFunctionDef, ast.ClassDef)) and x.name == name:
+                vals.append(None)
+            elif isinstance(x, (ast.With, ast.AsyncWith)):
+                for it in x.items:
+                    if it.optional_vars is not None and any(isinstance(tn, ast.Name) and tn.id == name for tn in ast.walk(it.optional_vars)):
+                        vals.append(None)
+            elif isinstance(x, ast.NamedExpr) and x.target.id == name:
+                vals.append(None)
+    if len(vals) == 1 and vals[0] is not None:
+        return vals[0]
+    return None
+
+
+def _atom(e):
+    """Expressions that may be substituted for a loop variable without changing what is evaluated."""
+    if isinstance(e, (ast.Constant, ast.Name)):
+        return True
+    if isinstance(e, ast.Attribute):
+        return _atom(e.value)
+    if isinstance(e, ast.UnaryOp) and isinstance(e.op, ast.USub):
+        return isinstance(e.operand, ast.Constant)
+    return False
+
+
+def _table_rows(index, fi, it):
+    """Rows of the literal tuple/list a loop iterates over: written in place, or bound exactly once to a local name, a
+    module-level name or a class attribute (`Cls.T`, `self.T`, `cls.T`).  None when not such a table."""
+    val = None
+    if isinstance(it, (ast.Tuple, ast.List)):
+        val = it
+    elif isinstance(it, ast.Name):
+        fn = fi.node
+        local = any(isinstance(n, ast.Name) and n.id == it.id and isinstance(n.ctx, ast.Store) for n in ast.walk(fn))
+        if local:
+            val = _single_assign_value(fn.body, it.id)
+        elif it.id not in {a.arg for a in ast.walk(fn.args) if isinstance(a, ast.arg)}:
+            val = _single_assign_value(fi.module.tree.body, it.id)
+    elif isinstance(it, ast.Attribute) and isinstance(it.value, ast.Name):
+        ci = None
+        if it.value.id in ('self', 'cls') and fi.cls is not None:
+            ci = fi.cls
+        else:
+            q = None
+            try:
+                q = index.resolve_name(fi.module, it.value.id)
+            except Exception:
+                q = None
+            if isinstance(q, tuple) and len(q) == 2 and q[0] == 'class':
+                ci = q[1]
+            elif isinstance(q, str):
+                ci = index.classes.get(q)
+        if ci is not None:
+            owner, _ = index.lookup_attr(ci, it.attr)
+            if owner is not None:
+                val = _single_assign_value(owner.node.body, it.attr)
+                # an instance could shadow the class attribute: any store to `.attr` anywhere in the package disables the reading
+                for m in index.package_modules():
+                    for n in ast.walk(m.tree):
+                        if isinstance(n, ast.Attribute) and n.attr == it.attr and isinstance(n.ctx, (ast.Store, ast.Del)):
+                            val = None
+    if not isinstance(val, (ast.Tuple, ast.List)) or not (0 < len(val.elts) <= MAX_UNROLL):
+        return None
+    return list(val.elts)
+
+
+def unroll_table_loops(index, fi):
+    """In the (unreviewed) function fi, replace `for a, b in TABLE: body` over a literal table by one copy of the body per row
+    with the row's entries substituted for the loop variables.  Faithful when the body neither breaks / continues nor
+    stores to the loop variables, the loop has no else, the entries are atoms (names, constants, dotted names), and the
+    loop variables are not read after the loop.  Returns the number of loops unrolled."""
+    count = [0]
+
+    def names_loaded_after(stmts_after, names):
+        for s in stmts_after:
+            for n in ast.walk(s):
+                if isinstance(n, ast.Name) and n.id in names and isinstance(n.ctx, ast.Load):
+                    return True
+        return False
+
+    def try_unroll(loop, after):
+        if not isinstance(loop, ast.For) or loop.orelse:
+            return None
+        tgt = loop.target
+        if isinstance(tgt, ast.Name):
+            tnames = [tgt.id]
+        elif isinstance(tgt, (ast.Tuple, ast.List)) and all(isinstance(e, ast.Name) for e in tgt.elts):
+            tnames = [e.id for e in tgt.elts]
+        else:
+            return None
+        rows = _table_rows(index, fi, loop.iter)
+        if rows is None:
+            return None
+        # body restrictions
+        stack = list(loop.body)
+        while stack:
+            n = stack.pop()
+            if isinstance(n, (ast.Break, ast.Continue)):
+                return None
+            if isinstance(n, (ast.For, ast.While, ast.AsyncFor)):
+                # break/continue inside a nested loop belong to it; stores are still checked below
+                pass
+            if isinstance(n, (ast.FunctionDef, ast.AsyncFunctionDef, ast.Lambda, ast.ClassDef)):
+                return None
+            if isinstance(n, ast.Name) and n.id in tnames and isinstance(n.ctx, (ast.Store, ast.Del)):
+                return None
+            if isinstance(n, (ast.For, ast.While)):
+                for x in ast.walk(n):
+                    if isinstance(x, (ast.Break, ast.Continue)):
+                        pass
+                stack.extend(c for c in ast.iter_child_nodes(n) if not isinstance(c, (ast.Break, ast.Continue)))
+                continue
+            stack.extend(ast.iter_child_nodes(n))
+        if names_loaded_after(after, set(tnames)):
+            return None
+        out = []
+        for row in rows:
+            if isinstance(tgt, ast.Name):
+                if not (_atom(row) or (isinstance(row, (ast.Tuple, ast.List)) and all(_atom(e) for e in row.elts))):
+                    return None
+                mapping = {tgt.id: row}
+            else:
+                if not isinstance(row, (ast.Tuple, ast.List)) or len(row.elts) != len(tnames) or not all(_atom(e) for e in row.elts):
+                    return None
+                mapping = dict(zip(tnames, row.elts))
+            for s in loop.body:
+                c = _Renamer(mapping).visit(clone(s))
+                out.append(c)
+        for s in out:
+            ast.copy_location(s, loop)
+            ast.fix_missing_locations(s)
+        return out
+
+    def block(stmts):
+        res = []
+        for i, s in enumerate(stmts):
+            for field in ('body', 'orelse', 'finalbody'):
+                sub = getattr(s, field, None)
+                if isinstance(sub, list) and sub and isinstance(sub[0], ast.stmt) and not isinstance(s, (ast.FunctionDef, ast.ClassDef, ast.AsyncFunctionDef)):
+                    setattr(s, field, block(sub))
+            if isinstance(s, ast.Try):
+                for h in s.handlers:
+                    h.body = block(h.body)
+            un = try_unroll(s, stmts[i + 1:])
+            if un is not None:
+                count[0] += 1
+                res.extend(un)
+            else:
+                res.append(s)
+        return res
+
+    fi.node.body = block(fi.node.body)
+    return count[0]
+
+
+# ----------------------------------------------------------------------------- catch-all handler with an isinstance chain
+_BUILTIN_NON_EXCEPTION = {'KeyboardInterrupt', 'SystemExit', 'GeneratorExit', 'BaseException'}
+
+
+def split_dispatch_handlers(fn):
+    """`except Exception as e:` whose body is a chain of `isinstance(e, C)` tests is rewritten as one handler per class
+    (same order) followed by the catch-all with the chain's default -- the form the rules read.  Returns the count."""
+    count = 0
+    for tr in [n for n in ast.walk(fn) if isinstance(n, ast.Try)]:
+        new_handlers = []
+        for h in tr.handlers:
+            rows = _dispatch_rows(h)
+            if rows is None:
+                new_handlers.append(h)
+                continue
+            count += 1
+            for cls_expr, body in rows:
+                uses = any(isinstance(n, ast.Name) and n.id == h.name for s in body for n in ast.walk(s))
+                nh = ast.ExceptHandler(type=cls_expr if cls_expr is not None else h.type, name=h.name if uses else None,
+                                       body=body or [ast.Pass()])
+                ast.copy_location(nh, h)
+                ast.fix_missing_locations(nh)
+                new_handlers.append(nh)
+        tr.handlers = new_handlers
+    return count
+
+
+def _dispatch_rows(h):
+    if h.name is None or not (isinstance(h.type, ast.Name) and h.type.id in ('Exception', 'BaseException')):
+        return None
+    e = h.name
+    for n in ast.walk(h):
+        if isinstance(n, ast.Name) and n.id == e and isinstance(n.ctx, (ast.Store, ast.Del)):
+            return None
+
+    def isinst(test):
+        if isinstance(test, ast.Call) and isinstance(test.func, ast.Name) and test.func.id == 'isinstance' and len(test.args) == 2 \
+                and not test.keywords and isinstance(test.args[0], ast.Name) and test.args[0].id == e:
+            c = test.args[1]
+            parts = c.elts if isinstance(c, ast.Tuple) else [c]
+            for x in parts:
+                if not (isinstance(x, ast.Name) or (isinstance(x, ast.Attribute) and _atom(x))):
+                    return None
+                if isinstance(x, ast.Name) and x.id in _BUILTIN_NON_EXCEPTION and x.id != h.type.id:
+                    return None
+            return c
+        return None
+
+    rows = []
+    prelude = []
+    stmts = list(h.body)
+    while True:
+        while stmts and isinstance(stmts[0], ast.Assign) and len(stmts[0].targets) == 1 and isinstance(stmts[0].targets[0], ast.Name) \
+                and e not in _names_used(stmts[0].value) and not any(isinstance(n, ast.Call) for n in ast.walk(stmts[0].value)
+                                                                     if not _is_format_call(n)):
+            prelude.append(stmts.pop(0))
+        if not stmts:
+            rows.append((None, [clone(x) for x in prelude]))
+            break
+        s0 = stmts[0]
+        c = isinst(s0.test) if isinstance(s0, ast.If) else None
+        if c is None:
+            rows.append((None, [clone(x) for x in prelude] + stmts))
+            break
+        if isinstance(c, ast.Name) and c.id == h.type.id:
+            rows.append((None, [clone(x) for x in prelude] + list(s0.body)))      # always true here: the default
+            break
+        if s0.orelse:
+            if len(stmts) > 1 and not (_always_exits(s0.body) and _always_exits(s0.orelse)):
+                return None
+            rows.append((c, [clone(x) for x in prelude] + list(s0.body)))
+            stmts = list(s0.orelse)
+        else:
+            if not _always_exits(s0.body):
+                return None
+            rows.append((c, [clone(x) for x in prelude] + list(s0.body)))
+            stmts = stmts[1:]
+    if len(rows) < 2:
+        return None
+    return rows
+
+
+def _is_format_call(n):
+    return isinstance(n, ast.Call) and isinstance(n.func, ast.Attribute) and n.func.attr in ('format', 'join')
+
+
 def _is_call_to(index, caller_fi, node, targets_q):
     if not isinstance(node, ast.Call):
         return None
@@ -337,11 +625,17 @@ def normalize(index, known=None, rounds=3):
         changed = False
         cq = set(cands)
         remaining_calls = {q: 0 for q in cq}
+        for q in sorted(cq):
+            n_un = unroll_table_loops(index, cands[q])
+            if n_un:
+                report.setdefault('unrolled', {})[q] = report.get('unrolled', {}).get(q, 0) + n_un
         for m in index.package_modules():
             for fi in list(m.all_funcs):
-                if fi.qualname in cq and False:
-                    continue
-                changed |= _inline_in_function(index, inl, fi, cq, remaining_calls, report)
+                if _inline_in_function(index, inl, fi, cq, remaining_calls, report):
+                    changed = True
+                    n_sp = split_dispatch_handlers(fi.node)
+                    if n_sp:
+                        report.setdefault('split_handlers', {})[fi.qualname] = n_sp
         if not changed:
             break
         # drop helper definitions that are no longer called, rebuild the index tables
@@ -389,6 +683,7 @@ def _inline_in_function(index, inl, fi, cq, remaining_calls, report):
                 if mode == 'return':
                     def k(e, src, fell_off=False):
                         return [ast.Return(value=e)]
+                    k.try_safe = True
                 elif mode == 'raise':
                     def k(e, src, fell_off=False):
                         return [ast.Raise(exc=e, cause=None)]
@@ -397,9 +692,11 @@ def _inline_in_function(index, inl, fi, cq, remaining_calls, report):
                         if fell_off or isinstance(e, ast.Constant):
                             return []
                         return [ast.Expr(value=e)]
+                    k.try_safe = True
                 elif mode == 'assign':
                     def k(e, src, fell_off=False):
                         return [ast.Assign(targets=[clone(t) for t in s.targets], value=e)]
+                    k.try_safe = all(isinstance(t, ast.Name) for t in s.targets)
                 else:
                     def k(e, src, fell_off=False):
                         return [ast.AugAssign(target=clone(s.target), op=s.op, value=e)]
@@ -436,6 +733,7 @@ def _inline_in_function(index, inl, fi, cq, remaining_calls, report):
 
                     def k(e, src, fell_off=False, tmp=tmp):
                         return [ast.Assign(targets=[ast.Name(id=tmp, ctx=ast.Store())], value=e)]
+                    k.try_safe = True
                     pre = inl.expansion(c, n, caller_locals, k)
                     _replace_node(s, n, ast.Name(id=tmp, ctx=ast.Load()))
                     report['inlined'][c.qualname] = report['inlined'].get(c.qualname, 0) + 1
